@@ -188,10 +188,12 @@ Section Blocks.
   Proof.
     intros [Hca Hpa] Hres Hne Htr st.
     destruct (Hpa st) as (fa & Ha).
-    destruct (embed [] ca ([ITest; IDup; IJmpCond true (Z.of_nat (length cb) + 1)] ++ cb ++ [IOr]) Hca
-                    fa O st lg (sva :: st) lg1 (Nat.le_0_l _) Ha) as (f1 & _ & Hrun).
-    exists (f1 + 4)%nat. unfold or_code. specialize (Hrun 4%nat). cbn [app length Nat.add] in Hrun.
-    rewrite Hrun. clear Hrun.
+    set (q := [ITest; IDup; IJmpCond true (Z.of_nat (length cb) + 1)] ++ cb ++ [IOr]).
+    destruct (embed [] ca q Hca fa O st lg (sva :: st) lg1 (Nat.le_0_l _) Ha) as (f1 & _ & Hrun).
+    exists (f1 + 4)%nat. unfold or_code. fold q. specialize (Hrun 4%nat).
+    change ([] ++ ca ++ q) with (ca ++ q) in Hrun. change (length (@nil instr) + 0)%nat with O in Hrun.
+    change (length (@nil instr) + length ca)%nat with (length ca) in Hrun.
+    rewrite Hrun. clear Hrun. unfold q.
     set (code := ca ++ [ITest; IDup; IJmpCond true (Z.of_nat (length cb) + 1)] ++ cb ++ [IOr]).
     assert (N0 : nth_error code (length ca) = Some ITest) by (apply nth_after; reflexivity).
     assert (N1 : nth_error code (S (length ca)) = Some IDup).
@@ -231,10 +233,12 @@ Section Blocks.
   Proof.
     intros [Hca Hpa] Hres Hcase st.
     destruct (Hpa st) as (fa & Ha).
-    destruct (embed [] ca ([ITest; IDup; IJmpCond false (Z.of_nat (length cb) + 1)] ++ cb ++ [IAnd]) Hca
-                    fa O st lg (sva :: st) lg1 (Nat.le_0_l _) Ha) as (f1 & _ & Hrun).
-    exists (f1 + 4)%nat. unfold and_code. specialize (Hrun 4%nat). cbn [app length Nat.add] in Hrun.
-    rewrite Hrun. clear Hrun.
+    set (q := [ITest; IDup; IJmpCond false (Z.of_nat (length cb) + 1)] ++ cb ++ [IAnd]).
+    destruct (embed [] ca q Hca fa O st lg (sva :: st) lg1 (Nat.le_0_l _) Ha) as (f1 & _ & Hrun).
+    exists (f1 + 4)%nat. unfold and_code. fold q. specialize (Hrun 4%nat).
+    change ([] ++ ca ++ q) with (ca ++ q) in Hrun. change (length (@nil instr) + 0)%nat with O in Hrun.
+    change (length (@nil instr) + length ca)%nat with (length ca) in Hrun.
+    rewrite Hrun. clear Hrun. unfold q.
     set (code := ca ++ [ITest; IDup; IJmpCond false (Z.of_nat (length cb) + 1)] ++ cb ++ [IAnd]).
     assert (N0 : nth_error code (length ca) = Some ITest) by (apply nth_after; reflexivity).
     assert (N1 : nth_error code (S (length ca)) = Some IDup).
@@ -253,20 +257,330 @@ Section Blocks.
     assert (Tjmp : exists b, t = VBool false /\ b = tt \/ exists e, t = VErr e).
     { unfold t. destruct (is_err va) eqn:Ee; [destruct va; try discriminate; exists tt; right; eauto|exists tt; left; auto]. }
     rewrite loop_S, N0. cbn [step]. unfold mbind at 1. rewrite (Hres st). rewrite Ht.
-    rewrite loop_S, N1. cbn [step]. unfold mbind at 1. rewrite (resolves_plain t lg2 Tni st).
-    unfold mret at 1, push.
-    rewrite loop_S, N2. cbn [step]. unfold mbind at 1. rewrite (resolves_plain t lg2 Tni (SVal t :: st)).
-    assert (Hj : (match t with
-                  | VBool b => mret (if Bool.eqb b false then Some (Z.of_nat (length cb) + 1) else None, SVal t :: st)
-                  | VErr _ => mret (if false then None else Some (Z.of_nat (length cb) + 1), SVal t :: st)
-                  | _ => mfail EInvalidOp
-                  end) lg2 = (ROk (Some (Z.of_nat (length cb) + 1), SVal t :: st), lg2)).
-    { destruct Tjmp as (b & [[-> _]|[e ->]]); reflexivity. }
-    rewrite Hj.
-    rewrite jump_target_inside; [|lia|rewrite Len; lia].
+    assert (Hend : nth_error code (S (S (S (length ca))) + Z.to_nat (Z.of_nat (length cb) + 1)) = None).
+    { apply nth_error_None. rewrite Len. lia. }
+    destruct Tjmp as (b & [[Et _]|[e Et]]); rewrite Et.
+    - rewrite loop_S, N1. cbn [step]. unfold mbind, mret, push. cbn [pop_val pop into_value mbind mret].
+      change (pop_val rs E d (SVal (VBool false) :: st) lg2) with (ROk (VBool false, st), lg2).
+      rewrite loop_S, N2. cbn [step]. unfold mbind, mret.
+      change (pop_val rs E d (SVal (VBool false) :: SVal (VBool false) :: st) lg2)
+        with (ROk (VBool false, SVal (VBool false) :: st), lg2).
+      cbn [Bool.eqb].
+      rewrite jump_target_inside; [|lia|rewrite Len; lia].
+      rewrite loop_S, Hend. reflexivity.
+    - rewrite loop_S, N1. cbn [step]. unfold mbind, mret, push. cbn [pop_val pop into_value mbind mret].
+      change (pop_val rs E d (SVal (VErr e) :: st) lg2) with (ROk (VErr e, st), lg2).
+      rewrite loop_S, N2. cbn [step]. unfold mbind, mret.
+      change (pop_val rs E d (SVal (VErr e) :: SVal (VErr e) :: st) lg2)
+        with (ROk (VErr e, SVal (VErr e) :: st), lg2).
+      lazy iota beta.
+      rewrite jump_target_inside; [|lia|rewrite Len; lia].
+      rewrite loop_S, Hend. reflexivity.
+  Qed.
+
+  Lemma nth_off {A} (p q : list A) k : nth_error (p ++ q) (length p + k) = nth_error q k.
+  Proof. rewrite nth_error_app2 by lia. f_equal. lia. Qed.
+
+  (** The value TEST leaves for an operand value. *)
+  Definition tested (v : value) : value := if is_err v then v else VBool (is_truthy v).
+
+  Lemma tested_plain v : match tested v with VIdent _ => False | _ => True end.
+  Proof. unfold tested. destruct (is_err v) eqn:Ee; [destruct v; try discriminate; exact I|exact I]. Qed.
+
+  (** TEST; DUP; JMP-if-w when the jump is not taken: the tested value stays on the stack. *)
+  Lemma test_dup_nojump code k w dist sva lg1 va lg2 :
+    nth_error code k = Some ITest -> nth_error code (S k) = Some IDup ->
+    nth_error code (S (S k)) = Some (IJmpCond w dist) ->
+    resolves sva lg1 va lg2 ->
+    match tested va with VBool b => Bool.eqb b w = false | VErr _ => w = true | _ => False end ->
+    forall f st, loop' (S (S (S f))) E d code k (sva :: st) lg1 =
+                 loop' f E d code (S (S (S k))) (SVal (tested va) :: st) lg2.
+  Proof.
+    intros N0 N1 N2 Hra Hnj f st.
+    assert (Ht : (if is_err va then (mret (None (A := Z), push va st)) else mret (None, push (VBool (is_truthy va)) st)) lg2
+                 = (ROk (None, SVal (tested va) :: st), lg2)).
+    { unfold tested. destruct (is_err va); reflexivity. }
+    rewrite loop_S, N0. cbn [step]. unfold mbind at 1. rewrite (Hra st). rewrite Ht.
+    destruct (tested va) as [| | |b| | | | | | | | | | |e] eqn:Et; try contradiction.
+    - rewrite loop_S, N1. cbn [step]. unfold mbind, mret, push. cbn [pop_val pop into_value mbind mret].
+      change (pop_val rs E d (SVal (VBool b) :: st) lg2) with (ROk (VBool b, st), lg2).
+      rewrite loop_S, N2. cbn [step]. unfold mbind, mret.
+      change (pop_val rs E d (SVal (VBool b) :: SVal (VBool b) :: st) lg2)
+        with (ROk (VBool b, SVal (VBool b) :: st), lg2).
+      lazy iota beta. rewrite Hnj. reflexivity.
+    - subst w. rewrite loop_S, N1. cbn [step]. unfold mbind, mret, push. cbn [pop_val pop into_value mbind mret].
+      change (pop_val rs E d (SVal (VErr e) :: st) lg2) with (ROk (VErr e, st), lg2).
+      rewrite loop_S, N2. cbn [step]. unfold mbind, mret.
+      change (pop_val rs E d (SVal (VErr e) :: SVal (VErr e) :: st) lg2)
+        with (ROk (VErr e, SVal (VErr e) :: st), lg2).
+      reflexivity.
+  Qed.
+
+  (** [a || b] when [a] does not decide: [b] is evaluated and the result is
+      [or] of the tested left value and the right value (Ops.or_: true when
+      either side is truthy, otherwise the failure / false). *)
+  Theorem or_evaluates_rhs ca cb lg sva lg1 va lg2 svb lg3 vb lg4 :
+    pushes ca lg sva lg1 -> resolves sva lg1 va lg2 ->
+    (is_err va = true \/ is_truthy va = false) ->
+    pushes cb lg2 svb lg3 -> resolves svb lg3 vb lg4 ->
+    forall st, exists f, loop' f E d (or_code ca cb) O st lg = (ROk (SVal (or_ (tested va) vb) :: st), lg4).
+  Proof.
+    intros [Hca Hpa] Hra Hcase [Hcb Hpb] Hrb st.
+    destruct (Hpa st) as (fa & Ha).
+    set (pre := [ITest; IDup; IJmpCond true (Z.of_nat (length cb) + 1)]).
+    set (q := pre ++ cb ++ [IOr]).
+    destruct (embed [] ca q Hca fa O st lg (sva :: st) lg1 (Nat.le_0_l _) Ha) as (f1 & _ & Hrun1).
+    set (t := tested va).
+    destruct (Hpb (SVal t :: st)) as (fb & Hb).
+    destruct (embed (ca ++ pre) cb [IOr] Hcb fb O (SVal t :: st) lg2 (svb :: SVal t :: st) lg3 (Nat.le_0_l _) Hb)
+      as (f2 & _ & Hrun2).
+    exists (f1 + (3 + (f2 + 2)))%nat. unfold or_code. fold pre. fold q.
+    specialize (Hrun1 (3 + (f2 + 2))%nat).
+    change ([] ++ ca ++ q) with (ca ++ q) in Hrun1. change (length (@nil instr) + 0)%nat with O in Hrun1.
+    change (length (@nil instr) + length ca)%nat with (length ca) in Hrun1.
+    rewrite Hrun1. clear Hrun1.
+    assert (Ecode : ca ++ q = (ca ++ pre) ++ cb ++ [IOr]) by (unfold q; rewrite <- app_assoc; reflexivity).
+    set (code := ca ++ q) in *.
+    assert (N0 : nth_error code (length ca) = Some ITest).
+    { unfold code. rewrite <- (Nat.add_0_r (length ca)), nth_off. reflexivity. }
+    assert (N1 : nth_error code (S (length ca)) = Some IDup).
+    { unfold code. replace (S (length ca)) with (length ca + 1)%nat by lia. rewrite nth_off. reflexivity. }
+    assert (N2 : nth_error code (S (S (length ca))) = Some (IJmpCond true (Z.of_nat (length cb) + 1))).
+    { unfold code. replace (S (S (length ca))) with (length ca + 2)%nat by lia. rewrite nth_off. reflexivity. }
+    assert (Hnj : match tested va with VBool b => Bool.eqb b true = false | VErr _ => true = true | _ => False end).
+    { unfold tested. destruct (is_err va) eqn:Ee; [destruct va; try discriminate; reflexivity|].
+      destruct Hcase as [Hx|Hx]; [discriminate|]. rewrite Hx. reflexivity. }
+    replace (3 + (f2 + 2))%nat with (S (S (S (f2 + 2)))) by lia.
+    rewrite (test_dup_nojump code (length ca) true _ sva lg1 va lg2 N0 N1 N2 Hra Hnj). fold t.
+    (* the right operand, embedded *)
+    specialize (Hrun2 2%nat). rewrite <- Ecode in Hrun2. fold code in Hrun2.
+    replace (length (ca ++ pre) + 0)%nat with (S (S (S (length ca)))) in Hrun2 by (rewrite app_length; cbn; lia).
+    rewrite Hrun2. clear Hrun2.
+    (* Or *)
+    assert (N3 : nth_error code (length (ca ++ pre) + length cb) = Some IOr).
+    { rewrite Ecode. rewrite nth_off. rewrite <- (Nat.add_0_r (length cb)), nth_off. reflexivity. }
+    rewrite loop_S, N3. cbn [step]. unfold bin. unfold mbind at 1. rewrite (Hrb (SVal t :: st)).
+    unfold mbind at 1. rewrite (resolves_plain t lg4 (tested_plain va) st). unfold mret, push.
     rewrite loop_S.
-    replace (nth_error code (S (S (S (length ca))) + Z.to_nat (Z.of_nat (length cb) + 1))) with (@None instr).
-    2:{ symmetry. apply nth_error_None. rewrite Len. lia. }
+    replace (nth_error code (S (length (ca ++ pre) + length cb))) with (@None instr).
+    2:{ symmetry. apply nth_error_None. rewrite Ecode, !app_length. cbn. lia. }
     reflexivity.
   Qed.
+
+  (** ... and when the right operand fails hard, the whole expression fails with it. *)
+  Theorem or_rhs_fails ca cb lg sva lg1 va lg2 e lg3 :
+    pushes ca lg sva lg1 -> resolves sva lg1 va lg2 ->
+    (is_err va = true \/ is_truthy va = false) ->
+    fails cb lg2 e lg3 ->
+    forall st, exists f, loop' f E d (or_code ca cb) O st lg = (RErr e, lg3).
+  Proof.
+    intros [Hca Hpa] Hra Hcase [Hcb Hpb] st.
+    destruct (Hpa st) as (fa & Ha).
+    set (pre := [ITest; IDup; IJmpCond true (Z.of_nat (length cb) + 1)]).
+    set (q := pre ++ cb ++ [IOr]).
+    destruct (embed [] ca q Hca fa O st lg (sva :: st) lg1 (Nat.le_0_l _) Ha) as (f1 & _ & Hrun1).
+    set (t := tested va).
+    destruct (Hpb (SVal t :: st)) as (fb & Hb).
+    destruct (embed_err (ca ++ pre) cb [IOr] Hcb fb O (SVal t :: st) lg2 e lg3 (Nat.le_0_l _) Hb)
+      as (f2 & _ & Hrun2).
+    exists (f1 + (3 + (f2 + 0)))%nat. unfold or_code. fold pre. fold q.
+    specialize (Hrun1 (3 + (f2 + 0))%nat).
+    change ([] ++ ca ++ q) with (ca ++ q) in Hrun1. change (length (@nil instr) + 0)%nat with O in Hrun1.
+    change (length (@nil instr) + length ca)%nat with (length ca) in Hrun1.
+    rewrite Hrun1. clear Hrun1.
+    assert (Ecode : ca ++ q = (ca ++ pre) ++ cb ++ [IOr]) by (unfold q; rewrite <- app_assoc; reflexivity).
+    set (code := ca ++ q) in *.
+    assert (N0 : nth_error code (length ca) = Some ITest).
+    { unfold code. rewrite <- (Nat.add_0_r (length ca)), nth_off. reflexivity. }
+    assert (N1 : nth_error code (S (length ca)) = Some IDup).
+    { unfold code. replace (S (length ca)) with (length ca + 1)%nat by lia. rewrite nth_off. reflexivity. }
+    assert (N2 : nth_error code (S (S (length ca))) = Some (IJmpCond true (Z.of_nat (length cb) + 1))).
+    { unfold code. replace (S (S (length ca))) with (length ca + 2)%nat by lia. rewrite nth_off. reflexivity. }
+    assert (Hnj : match tested va with VBool b => Bool.eqb b true = false | VErr _ => true = true | _ => False end).
+    { unfold tested. destruct (is_err va) eqn:Ee; [destruct va; try discriminate; reflexivity|].
+      destruct Hcase as [Hx|Hx]; [discriminate|]. rewrite Hx. reflexivity. }
+    replace (3 + (f2 + 0))%nat with (S (S (S (f2 + 0)))) by lia.
+    rewrite (test_dup_nojump code (length ca) true _ sva lg1 va lg2 N0 N1 N2 Hra Hnj). fold t.
+    specialize (Hrun2 0%nat). rewrite <- Ecode in Hrun2. fold code in Hrun2.
+    replace (length (ca ++ pre) + 0)%nat with (S (S (S (length ca)))) in Hrun2 by (rewrite app_length; cbn; lia).
+    exact Hrun2.
+  Qed.
+
+  (* ---- single instructions on a stack whose top is not an identifier ---------- *)
+  Definition plainv (v : value) : Prop := match v with VIdent _ => False | _ => True end.
+
+  Lemma step_pop_plain v st lg : plainv v -> step rs E d IPop (SVal v :: st) lg = (ROk (None, st), lg).
+  Proof. intros H. cbn [step]. unfold mbind. rewrite (resolves_plain v lg H st). reflexivity. Qed.
+  Lemma step_dup_plain v st lg : plainv v ->
+    step rs E d IDup (SVal v :: st) lg = (ROk (None, SVal v :: SVal v :: st), lg).
+  Proof. intros H. cbn [step]. unfold mbind. rewrite (resolves_plain v lg H st). reflexivity. Qed.
+  Lemma step_not_plain v st lg : plainv v ->
+    step rs E d INot (SVal v :: st) lg = (ROk (None, SVal (not_ v) :: st), lg).
+  Proof. intros H. cbn [step]. unfold un, mbind. rewrite (resolves_plain v lg H st). reflexivity. Qed.
+  Lemma step_test st lg sv v lg' : resolves sv lg v lg' ->
+    step rs E d ITest (sv :: st) lg = (ROk (None, SVal (tested v) :: st), lg').
+  Proof. intros H. cbn [step]. unfold mbind. rewrite (H st). unfold tested. destruct (is_err v); reflexivity. Qed.
+  Lemma step_jmpcond_bool w dist b st lg :
+    step rs E d (IJmpCond w dist) (SVal (VBool b) :: st) lg =
+    (ROk (if Bool.eqb b w then Some dist else None, st), lg).
+  Proof. reflexivity. Qed.
+  Lemma step_jmpcond_err w dist e st lg :
+    step rs E d (IJmpCond w dist) (SVal (VErr e) :: st) lg =
+    (ROk (if w then None else Some dist, st), lg).
+  Proof. reflexivity. Qed.
+  Lemma step_jmp dist st lg : step rs E d (IJmp dist) st lg = (ROk (Some dist, st), lg).
+  Proof. reflexivity. Qed.
+
+  (* ---- c ? x : y ------------------------------------------------------------------ *)
+  Definition tern_code (cc ct cf : code) : code :=
+    cc ++ [ITest; IDup; IJmpCond false (Z.of_nat (length ct) + 2); IPop] ++ ct ++
+    [IJmp (Z.of_nat (length cf) + 4); IDup; INot; IJmpCond false (Z.of_nat (length cf) + 1); IPop] ++ cf.
+
+  Section Tern.
+    Variables cc ct cf : code.
+    Let pre := [ITest; IDup; IJmpCond false (Z.of_nat (length ct) + 2); IPop].
+    Let mid := [IJmp (Z.of_nat (length cf) + 4); IDup; INot; IJmpCond false (Z.of_nat (length cf) + 1); IPop].
+    Let code := tern_code cc ct cf.
+    Let n := length cc.
+
+    Lemma tern_len : length code = (n + 4 + length ct + 5 + length cf)%nat.
+    Proof. unfold code, tern_code, n. rewrite !app_length. cbn. lia. Qed.
+
+    Lemma tern_pre k i : nth_error pre k = Some i -> nth_error code (n + k) = Some i.
+    Proof.
+      intros H. unfold code, tern_code, n. rewrite nth_off. unfold pre in *.
+      rewrite nth_error_app1; [exact H|]. apply nth_error_Some. rewrite H. discriminate.
+    Qed.
+    Lemma tern_mid k i : nth_error mid k = Some i -> nth_error code (n + 4 + length ct + k) = Some i.
+    Proof.
+      intros H. unfold code, tern_code, n.
+      replace (length cc + 4 + length ct + k)%nat with (length cc + (4 + (length ct + k)))%nat by lia.
+      rewrite nth_off. unfold mid in *.
+      match goal with |- nth_error (?p ++ ct ++ ?m ++ cf) _ = _ =>
+        replace (4 + (length ct + k))%nat with (length p + (length ct + k))%nat by reflexivity end.
+      rewrite nth_off, nth_off. rewrite nth_error_app1; [exact H|]. apply nth_error_Some. rewrite H. discriminate.
+    Qed.
+    Lemma tern_end : nth_error code (n + 4 + length ct + 5 + length cf) = None.
+    Proof. apply nth_error_None. rewrite tern_len. lia. Qed.
+
+    Lemma tern_embed_cc : closed cc -> forall fuel st lg st' lg',
+      loop' fuel E d cc O st lg = (ROk st', lg') ->
+      exists f1, forall extra, loop' (f1 + extra) E d code O st lg = loop' extra E d code n st' lg'.
+    Proof.
+      intros Hc fuel st lg st' lg' H.
+      destruct (embed [] cc (pre ++ ct ++ mid ++ cf) Hc fuel O st lg st' lg' (Nat.le_0_l _) H) as (f1 & _ & Hr).
+      exists f1. intros extra. specialize (Hr extra). exact Hr.
+    Qed.
+
+    Lemma tern_code_split_t : code = (cc ++ pre) ++ ct ++ (mid ++ cf).
+    Proof. unfold code, tern_code. fold pre. fold mid. rewrite <- !app_assoc. reflexivity. Qed.
+    Lemma tern_code_split_f : code = (cc ++ pre ++ ct ++ mid) ++ cf ++ [].
+    Proof. unfold code, tern_code. fold pre. fold mid. rewrite app_nil_r, <- !app_assoc. reflexivity. Qed.
+
+    (** condition truthy: exactly the then-branch runs; nothing depends on the else code *)
+    Theorem tern_true lg sva lg1 va lg2 svt lg3 :
+      pushes cc lg sva lg1 -> resolves sva lg1 va lg2 ->
+      is_err va = false -> is_truthy va = true ->
+      pushes ct lg2 svt lg3 ->
+      forall st, exists f, loop' f E d code O st lg = (ROk (svt :: st), lg3).
+    Proof.
+      intros [Hcc Hpc] Hrc Hne Htr [Hct Hpt] st.
+      destruct (Hpc st) as (fc & Hc).
+      destruct (tern_embed_cc Hcc fc st lg (sva :: st) lg1 Hc) as (f1 & Hrun1).
+      destruct (Hpt st) as (ft & Ht).
+      destruct (embed (cc ++ pre) ct (mid ++ cf) Hct ft O st lg2 (svt :: st) lg3 (Nat.le_0_l _) Ht) as (f2 & _ & Hrun2).
+      rewrite <- tern_code_split_t in Hrun2.
+      replace (length (cc ++ pre) + 0)%nat with (n + 4)%nat in Hrun2 by (unfold n; rewrite app_length; cbn; lia).
+      replace (length (cc ++ pre) + length ct)%nat with (n + 4 + length ct)%nat in Hrun2
+        by (unfold n; rewrite app_length; cbn; lia).
+      exists (f1 + (4 + (f2 + 2)))%nat. rewrite Hrun1.
+      assert (Tv : tested va = VBool true) by (unfold tested; rewrite Hne, Htr; reflexivity).
+      replace (4 + (f2 + 2))%nat with (S (S (S (S (f2 + 2))))) by lia.
+      replace n with (n + 0)%nat at 1 by lia.
+      rewrite loop_S, (tern_pre 0 ITest eq_refl), (step_test st lg1 sva va lg2 Hrc), Tv.
+      replace (S (n + 0)) with (n + 1)%nat by lia.
+      rewrite loop_S, (tern_pre 1 IDup eq_refl), step_dup_plain by exact I.
+      replace (S (n + 1)) with (n + 2)%nat by lia.
+      rewrite loop_S, (tern_pre 2 _ eq_refl), step_jmpcond_bool. cbn [Bool.eqb].
+      replace (S (n + 2)) with (n + 3)%nat by lia.
+      rewrite loop_S, (tern_pre 3 IPop eq_refl), step_pop_plain by exact I.
+      replace (S (n + 3)) with (n + 4)%nat by lia.
+      rewrite Hrun2.
+      replace (n + 4 + length ct)%nat with (n + 4 + length ct + 0)%nat by lia.
+      rewrite loop_S, (tern_mid 0 _ eq_refl), step_jmp.
+      rewrite jump_target_inside; [|lia|rewrite tern_len; lia].
+      replace (S (n + 4 + length ct + 0) + Z.to_nat (Z.of_nat (length cf) + 4))%nat
+        with (n + 4 + length ct + 5 + length cf)%nat by lia.
+      rewrite loop_S, tern_end. reflexivity.
+    Qed.
+
+    (** condition falsy: exactly the else-branch runs; nothing depends on the then code *)
+    Theorem tern_false lg sva lg1 va lg2 svf lg3 :
+      pushes cc lg sva lg1 -> resolves sva lg1 va lg2 ->
+      is_err va = false -> is_truthy va = false ->
+      pushes cf lg2 svf lg3 ->
+      forall st, exists f, loop' f E d code O st lg = (ROk (svf :: st), lg3).
+    Proof.
+      intros [Hcc Hpc] Hrc Hne Htr [Hcf Hpf] st.
+      destruct (Hpc st) as (fc & Hc).
+      destruct (tern_embed_cc Hcc fc st lg (sva :: st) lg1 Hc) as (f1 & Hrun1).
+      destruct (Hpf st) as (ff & Hf).
+      destruct (embed (cc ++ pre ++ ct ++ mid) cf [] Hcf ff O st lg2 (svf :: st) lg3 (Nat.le_0_l _) Hf) as (f2 & _ & Hrun2).
+      rewrite <- tern_code_split_f in Hrun2.
+      assert (Lp : length (cc ++ pre ++ ct ++ mid) = (n + 4 + length ct + 5)%nat)
+        by (unfold n; rewrite !app_length; cbn; lia).
+      rewrite Lp in Hrun2. replace (n + 4 + length ct + 5 + 0)%nat with (n + 4 + length ct + 5)%nat in Hrun2 by lia.
+      exists (f1 + (7 + (f2 + 1)))%nat. rewrite Hrun1.
+      assert (Tv : tested va = VBool false) by (unfold tested; rewrite Hne, Htr; reflexivity).
+      replace (7 + (f2 + 1))%nat with (S (S (S (S (S (S (S (f2 + 1)))))))) by lia.
+      replace n with (n + 0)%nat at 1 by lia.
+      rewrite loop_S, (tern_pre 0 ITest eq_refl), (step_test st lg1 sva va lg2 Hrc), Tv.
+      replace (S (n + 0)) with (n + 1)%nat by lia.
+      rewrite loop_S, (tern_pre 1 IDup eq_refl), step_dup_plain by exact I.
+      replace (S (n + 1)) with (n + 2)%nat by lia.
+      rewrite loop_S, (tern_pre 2 _ eq_refl), step_jmpcond_bool. cbn [Bool.eqb].
+      rewrite jump_target_inside; [|lia|rewrite tern_len; lia].
+      replace (S (n + 2) + Z.to_nat (Z.of_nat (length ct) + 2))%nat with (n + 4 + length ct + 1)%nat by lia.
+      rewrite loop_S, (tern_mid 1 IDup eq_refl), step_dup_plain by exact I.
+      replace (S (n + 4 + length ct + 1)) with (n + 4 + length ct + 2)%nat by lia.
+      rewrite loop_S, (tern_mid 2 INot eq_refl), step_not_plain by exact I. cbn [not_ is_err is_truthy negb].
+      replace (S (n + 4 + length ct + 2)) with (n + 4 + length ct + 3)%nat by lia.
+      rewrite loop_S, (tern_mid 3 _ eq_refl), step_jmpcond_bool. cbn [Bool.eqb].
+      replace (S (n + 4 + length ct + 3)) with (n + 4 + length ct + 4)%nat by lia.
+      rewrite loop_S, (tern_mid 4 IPop eq_refl), step_pop_plain by exact I.
+      replace (S (n + 4 + length ct + 4)) with (n + 4 + length ct + 5)%nat by lia.
+      rewrite Hrun2.
+      rewrite loop_S, tern_end. reflexivity.
+    Qed.
+
+    (** condition fails: the failure is the result and neither branch runs *)
+    Theorem tern_cond_fails lg sva lg1 e lg2 :
+      pushes cc lg sva lg1 -> resolves sva lg1 (VErr e) lg2 ->
+      forall st, exists f, loop' f E d code O st lg = (ROk (SVal (VErr e) :: st), lg2).
+    Proof.
+      intros [Hcc Hpc] Hrc st.
+      destruct (Hpc st) as (fc & Hc).
+      destruct (tern_embed_cc Hcc fc st lg (sva :: st) lg1 Hc) as (f1 & Hrun1).
+      exists (f1 + 7)%nat. rewrite Hrun1.
+      assert (Tv : tested (VErr e) = VErr e) by reflexivity.
+      replace 7%nat with (S (S (S (S (S (S (S O))))))) by lia.
+      replace n with (n + 0)%nat at 1 by lia.
+      rewrite loop_S, (tern_pre 0 ITest eq_refl), (step_test st lg1 sva (VErr e) lg2 Hrc), Tv.
+      replace (S (n + 0)) with (n + 1)%nat by lia.
+      rewrite loop_S, (tern_pre 1 IDup eq_refl), step_dup_plain by exact I.
+      replace (S (n + 1)) with (n + 2)%nat by lia.
+      rewrite loop_S, (tern_pre 2 _ eq_refl), step_jmpcond_err.
+      rewrite jump_target_inside; [|lia|rewrite tern_len; lia].
+      replace (S (n + 2) + Z.to_nat (Z.of_nat (length ct) + 2))%nat with (n + 4 + length ct + 1)%nat by lia.
+      rewrite loop_S, (tern_mid 1 IDup eq_refl), step_dup_plain by exact I.
+      replace (S (n + 4 + length ct + 1)) with (n + 4 + length ct + 2)%nat by lia.
+      rewrite loop_S, (tern_mid 2 INot eq_refl), step_not_plain by exact I. cbn [not_ is_err].
+      replace (S (n + 4 + length ct + 2)) with (n + 4 + length ct + 3)%nat by lia.
+      rewrite loop_S, (tern_mid 3 _ eq_refl), step_jmpcond_err.
+      rewrite jump_target_inside; [|lia|rewrite tern_len; lia].
+      replace (S (n + 4 + length ct + 3) + Z.to_nat (Z.of_nat (length cf) + 1))%nat
+        with (n + 4 + length ct + 5 + length cf)%nat by lia.
+      rewrite loop_S, tern_end. reflexivity.
+    Qed.
+  End Tern.
 End Blocks.
